@@ -45,6 +45,10 @@ SPECS = {s.name: s for s in [
     Spec("vcf", "VCFWithInfoAsStringEntry", ".vcf",
          [("chromosome", "id"), ("position", "vcfpos"), ("id", "str"), ("ref_seq", "str"), ("alt_seq", "str"),
           ("quality", "str"), ("filter", "str"), ("info", "str")], header="vcf"),
+    # the same table built as the library's declared VCF entry type (its `info` field is typed Union[dataclass, str])
+    Spec("vcfentry", "VCFEntry", ".vcf",
+         [("chromosome", "id"), ("position", "vcfpos"), ("id", "str"), ("ref_seq", "str"), ("alt_seq", "str"),
+          ("quality", "str"), ("filter", "str"), ("info", "str")], header="vcf"),
     Spec("sam", "SAMEntry", ".sam",
          [("name", "id"), ("flag", "int"), ("chromosome", "id"), ("position", "int"), ("mapq", "int"),
           ("cigar", "str"), ("next_chromosome", "str"), ("next_position", "int"), ("length", "int"),
